@@ -302,7 +302,11 @@ def gen_default(src, T, allow_mutable_literal=True):
     m = src.choice(7)
     if m == 0:
         return ["none"]
-    v = conforming_default(gen_value(src, T, True), T)
+    v = gen_value(src, T, True)
+    if not (k in ("keyedlist", "keyedset") and src.chance(1, 3)):
+        # (1 in 3 keyed-container defaults stay in their castable plain form - a list of items or of bare keys: the constructor
+        # casts it, and so does every later restoration of the default)
+        v = conforming_default(v, T)
     style = ["lit", "lit", "attr_default", "attr_factory", "field_default", "field_factory"][m - 1]
     mutable = isinstance(v, list) and v[0] in ("list", "dict", "set", "spec", "kl", "ks")
     if k in ("keyedlist", "keyedset") or (mutable and style == "field_default"):
